@@ -47,17 +47,24 @@ def run(ck):
                 strings.append("".join(rng.choice(ALPHA) for _ in range(n)))
     for _ in range(3000 if thorough else 600):
         n = rng.randint(4, 12)
-        strings.append("".join(rng.choice(ALPHA + ["and ", "or ", "not ", "int(", "all(", "of(", "A", "B", "\t", "٣", "½", "𝟙", "́"]) for _ in range(n)))
+        strings.append("".join(rng.choice(ALPHA + ["and ", "or ", "not ", "int(", "all(", "of(", "A", "B", "\t", "\n", "\x0b", "\x0c", "\r", "٣", "½", "𝟙", "́"]) for _ in range(n)))
+    # every character the tokeniser (or Unicode) calls white space, in every position of small
+    # conditions and keys: each must be skipped or rejected, never looped on
+    for ws in [" ", "\t", "\n", "\x0b", "\x0c", "\r", "\x1c", "\x1f", "\x85", "\xa0", "\u1680", "\u2028", "\u3000", "\ufeff"]:
+        for tmpl in ("%s", "A%s", "%sA", "A%sand%sB", "A and%sB", "A%sor B", "not%sA", "not %sA", "(%sA)", "all(%sA)", "of(A,%s1)",
+                     "int(%sf) > 1", "f%s", "%sf", "int(f%s)", "f%s== 1", "1%s", "%s1", "1.%s5", "i%s*", "?%s"):
+            strings.append(tmpl.replace("%s", ws))
+            strings.append(tmpl.replace("%s", ws * 3))
     strings = list(dict.fromkeys(strings))
     cases = []
     for s in strings:
         cases.append({"k": "tok", "id": ck.new_id(), "s": s})
         cases.append({"k": "ident", "id": ck.new_id(), "s": s})
-    for s in strings[::3]:
+    for s in strings[::3] + [x for x in strings if any(ord(ch) < 32 or ord(ch) in (0x85, 0xa0, 0x1680, 0x2028, 0x3000, 0xfeff) for ch in x)]:
         cases.append({"k": "cond", "id": ck.new_id(), "s": s})
     # mapping keys and pattern values in every position of an identifier block
     pid_cases = []
-    for s in strings[::5]:
+    for s in strings[::5] + [x for x in strings if any(ord(ch) < 32 and ch != "\t" for ch in x)][:400]:
         for shape in ({s: "x"}, {"f": s}, {"f": [s, "y"]}, {"all(f)": [s]}, {"f": {s: "x"}}, [{"f": s}], {"str(f)": [s, 1]}):
             pid_cases.append({"k": "pid", "id": ck.new_id(), "yaml": json.dumps(shape, ensure_ascii=False)})
     for _ in range(2500 if thorough else 600):
